@@ -19,6 +19,11 @@
 (* DeviationsExplain (every departure of the implementation model from the property is explained  *)
 (* by a named deviation).  Tensor values are exact integers (Tensor.tla); families that need      *)
 (* fractions use fixed point (no_op: 1/1000, cast_constant_of_shape: 1/10).                       *)
+(* Each family XX has XX_Params (the tuples), XX_Lhs (meaning of the host), XX_Match / XX_Check /  *)
+(* XX_Rewrite (the three steps, parameterised by the deviation set) and XX_Unknown (a needed fact  *)
+(* is not derivable from the model).  Host models the real runtime cannot execute are not          *)
+(* generated (XX_Lhs = ERR).  Witness invariants NeverFires / ImplHolds / NeverDeclines are        *)
+(* expected to be violated (Rules_vacuity_*.cfg).                                                  *)
 EXTENDS Tensor, TLC, Json
 
 CONSTANTS Deviations,      \* subset of AllDevs
@@ -33,8 +38,12 @@ AllDevs == {"relu_clip_negmax", "clip_clip_disjoint", "relu_clip_no_dtype_raise"
             "clip_inputs_pre_opset11", "expand_rank_extension", "expand_binop_drops_attrs",
             "materialize_allowzero", "slice_split_odd", "split_num_outputs_pre_opset18",
             "flatten_zero_dim", "reshape_matmul_ignores_inner_shapes", "matmul_add_gemm_bias_shape",
-            "gemm_matmul_add_ignores_attrs", "gemm_matmul_add_bias_shape", "pad_convinteger_zero_point", "autopad_ignores_dilation", "conv_affine_scalar_rank", "bn_gemm_beta"}
-AllFamilies == {"relus_clips", "min_max", "no_op", "dropout", "cast_cos", "scatter_static", "scatter_dynamic", "expand_binop", "materialize", "collapse_slices", "casts", "no_op_expand", "reshape_reshape", "flatten", "slice_split", "transposes", "unsqueeze2", "squeeze_reshape", "matmul_reshape", "matmul_add_gemm", "gemm_matmul_add", "optional_bias", "pad_conv", "conv_affine", "batchnorm"}
+            "gemm_matmul_add_ignores_attrs", "gemm_matmul_add_bias_shape", "pad_convinteger_zero_point",
+            "autopad_ignores_dilation", "conv_affine_scalar_rank", "bn_gemm_beta"}
+AllFamilies == {"relus_clips", "min_max", "no_op", "dropout", "cast_cos", "scatter_static", "scatter_dynamic",
+                "expand_binop", "materialize", "collapse_slices", "casts", "no_op_expand", "reshape_reshape", "flatten",
+                "slice_split", "transposes", "unsqueeze2", "squeeze_reshape", "matmul_reshape", "matmul_add_gemm",
+                "gemm_matmul_add", "optional_bias", "pad_conv", "conv_affine", "batchnorm"}
 Big == Menu = "thorough"
 
 RAISE == [dt |-> "RAISE", shape |-> <<>>, data |-> <<>>]
@@ -758,8 +767,9 @@ PC_N(op, L, k, s, d, auto, ka, dc, od, cp) ==
     cpads |-> cp, s |-> s, d |-> d, auto |-> auto, zp |-> NONE, pkind |-> "init", decl |-> dc, kattr |-> ka, odecl |-> od]
 PC_AllParams(z) ==
    \* fuse: the pads arithmetic
-   {PC_F(op, 4, k, pb, pe, 0, "full", NONE, "absent", cp, s, d, "absent", NONE, "init", "static") :
-        op \in {"Conv", "ConvInteger"}, k \in {1, 2}, pb \in 0..2, pe \in 0..2, cp \in {NOPADS, <<1, 0>>}, s \in {1, 2}, d \in {1, 2}}
+   {PC_F(op, L, k, pb, pe, 0, "full", NONE, "absent", cp, s, d, "absent", NONE, "init", "static") :
+        op \in {"Conv", "ConvInteger"}, L \in (IF Big THEN 3..5 ELSE {4}), k \in (IF Big THEN 1..3 ELSE {1, 2}), pb \in 0..2, pe \in 0..2,
+        cp \in (IF Big THEN {NOPADS, <<1, 0>>, <<0, 2>>} ELSE {NOPADS, <<1, 0>>}), s \in {1, 2}, d \in {1, 2}}
    \* fuse: the side conditions, one at a time around a firing core
    \cup {PC_F(op, 4, 2, pb, 1, nb, af, cv, "absent", NOPADS, 1, 1, "absent", NONE, "init", "static") :
         op \in {"Conv", "ConvInteger"}, pb \in {1, -1}, nb \in {0, 1}, af \in {"full", "axes_pos", "axes_neg"}, cv \in {NONE, 0, 1}}
